@@ -204,13 +204,30 @@ def main():
             print('REPLAY: %s: %s on the current tree %s' % (rec0['obligation'], k['status'], k.get('note', ''))); sys.exit(0 if k['status'] == 'SUCCESS' else 2)
     build = os.path.join(VERIF, 'build', 'run-%s' % prop)
     os.makedirs(build, exist_ok=True)
+    lenient_note = None
     try:
         g = gen.Generator(REPO, VERIF)
         res = g.generate()
         path = gen.write_outputs(res, build)
     except (gen.ToolCondition, gen.ContractError) as e:
         print('TOOL-CONDITION: %s' % e)
-        sys.exit(fallback_enumeration(prop, str(e))[0] if not a.replay else 2)
+        g = None
+        if isinstance(e, gen.ToolCondition) and str(e).startswith('lost anchor') and ': /' in str(e) and not a.replay:
+            # A proof HINT lost its anchor (the statement it was attached to was rewritten).  Second attempt: drop such hints.  The function that
+            # lost a hint cannot be decided (its failures are "undecided"); every other function and every structural obligation is judged as
+            # usual (Verus is modular: a caller sees only the callee's contract, so a dropped hint inside F cannot make G fail).
+            try:
+                g = gen.Generator(REPO, VERIF)
+                g.lenient = True
+                res = g.generate()
+                path = gen.write_outputs(res, build)
+                lenient_note = 'proof hints dropped because their anchors are lost: ' + '; '.join('%s: %s' % (k, ', '.join(v)) for k, v in sorted(g.dropped_hints.items()))
+                print('NOTE: second attempt without the lost proof hints (%s)' % lenient_note[:300])
+            except (gen.ToolCondition, gen.ContractError) as e2:
+                print('TOOL-CONDITION: %s' % e2)
+                g = None
+        if g is None:
+            sys.exit(fallback_enumeration(prop, str(e))[0] if not a.replay else 2)
     extra = []
     if seed:
         extra += ['--smt-option', 'smt.random_seed=%d' % (seed % 1000), '--smt-option', 'sat.random_seed=%d' % (seed % 1000)]
@@ -271,6 +288,24 @@ def main():
             else:
                 keep.append(v)
         violations = keep
+    if lenient_note:
+        keep = []
+        # generated-file line ranges of the functions that lost a hint (a failure of a TRAIT method's clause is located in the impl's body)
+        spans = [(f.gen_first, f.gen_last, f.src_file, f.src_line) for f in res.fns if f.addr.split('#')[0] in g.dropped_hints and f.gen_last]
+        def _inside(v):
+            return (v.addr.split('#')[0] in g.dropped_hints or any(a_ <= v.gen_line <= b_ for a_, b_, _f, _l in spans)
+                    or any(v.src_file == f_ and l_ <= v.src_line <= l_ + (b_ - a_) for a_, b_, f_, l_ in spans))
+        # a clause of a trait method that fails in such an impl is reported once per span: all reports of that clause id are undecided
+        oids_inside = set(v.oid for v in violations if v.kind != 'ownership' and _inside(v))
+        for v in violations:
+            inside = (v.oid in oids_inside or v.addr.split('#')[0] in g.dropped_hints or any(a_ <= v.gen_line <= b_ for a_, b_, _f, _l in spans)
+                      or any(v.src_file == f_ and l_ <= v.src_line <= l_ + (b_ - a_) for a_, b_, f_, l_ in spans))
+            if v.kind != 'ownership' and inside:
+                undecided.append(v)
+            else:
+                keep.append(v)
+        violations = keep
+        run.tool_errors.append('undecided: ' + lenient_note)
     # Trusted / external functions are assumed, not proved: if the source text of one that this property leans on
     # has changed since its contract was written, the assumption is no longer backed by an audit -> undecided.
     try:
@@ -365,6 +400,10 @@ def main():
         'changed_unverified_functions': changed_trusted,
         'contracted_items_no_longer_present': getattr(g, 'removed_items', []),
         'exhaustive': False,
+        'fallback_when_undecided': dict(
+            note='not run on this tree unless listed under fallback_enumeration: only when the deductive verdict on a CHANGED tree is undecided (exit 2) are these bounded enumerations run against the real code; a failing case tagged with this property is then reported as the violation with its input; finding nothing leaves the verdict undecided; never counted in discharged (DESIGN.md 13.13)',
+            harnesses=[dict(harness=n_, bound=kani.HARNESSES[n_]['bound']) for n_ in ('E-fault', 'E-dmg', 'E-hist') if prop in FALLBACKS[n_]]),
+        'proof_hints_dropped_in_second_attempt': (g.dropped_hints if lenient_note else {}),
     }
     ev = {
         'property_id': prop, 'tier': tier, 'seed': seed, 'level': level, 'coverage': coverage,
